@@ -8,4 +8,6 @@ CONSTANTS
   AllowSplit = TRUE
   StartCached = TRUE
   MarkBeforePut = TRUE
+  AllowReplace = FALSE
+  DelBeforeAvail = TRUE
 INVARIANTS NoPanic OneEstablisher EstablisherOnlyWhileUnavailable StableEnd
